@@ -169,7 +169,7 @@ func (w *cfgWriter) body(b m.BodyM, level int, selfOK bool) {
 	}
 }
 
-var halfTyped = []string{"provider::aws::f", "provider::aws::", "ns::", "var.", "var.a.", "f(", "fn(var.a, ", "[", "[var.a, ", "{", "{ a = ", "{ a = 1, ",
+var halfTyped = []string{"", "", "", "provider::aws::f", "provider::aws::", "ns::", "var.", "var.a.", "f(", "fn(var.a, ", "[", "[var.a, ", "{", "{ a = ", "{ a = 1, ",
 	"\"${", "\"${var.", "\"abc", "true ? ", "true ? 1 : ", "1 + ", "!", "[for ", "[for x in ", "[for x in var.a : ", "var.a[", "var.a[\"", "self.", "count.", "each.", "<<EOT\n  x\n",
 	"lis", "t", "f", "nu", "obj", "list(", "object({", "(", "-"}
 
